@@ -556,6 +556,8 @@ impl PollingState {
     pub(crate) fn set_polling(&self, is_polling: bool) -> bool {
         const _BOOL_CAST_CHECK_TRUE: () = assert!(true as u8 == IS_POLLING);
         const _BOOL_CAST_CHECK_FALSE: () = assert!(false as u8 == NOT_POLLING);
+        #[cfg(a10_verif)]
+        crate::verif::sync_point(crate::verif::SYNC_SET_POLLING, &raw const self.0);
         let state = self.0.swap(is_polling as u8 | NOT_AWOKEN, Ordering::AcqRel);
         (state & IS_AWOKEN) != 0
     }
@@ -565,6 +567,8 @@ impl PollingState {
     /// Returns a boolean indicating if the caller should submit an event to
     /// wake up the polling thread.
     pub(crate) fn wake(&self) -> bool {
+        #[cfg(a10_verif)]
+        crate::verif::sync_point(crate::verif::SYNC_WAKE_POLLING, &raw const self.0);
         let state = self.0.fetch_or(IS_AWOKEN, Ordering::AcqRel);
         state == (IS_POLLING | NOT_AWOKEN)
     }
